@@ -527,6 +527,10 @@ def binop(I, op, a, b):
             return a | b
         if t is ast.Sub:
             return a - b
+    if t is ast.BitXor and all(isinstance(v, bool) or is_sym_bool(v) for v in (a, b)):
+        if isinstance(a, bool) and isinstance(b, bool):
+            return a != b
+        return z3.Xor(to_z3(a), to_z3(b))
     if isinstance(a, bool) and not is_z3(b):
         a = int(a) if not isinstance(b, bool) or t not in (ast.BitAnd, ast.BitOr) else a
     if is_sym_bool(a) or is_sym_bool(b) or (isinstance(a, bool) and isinstance(b, bool)):
@@ -748,6 +752,10 @@ def getattr_(I, o, name):
             if name in ("__init__", "__init_subclass__"):
                 I.path.notes.add(f"external base-class {name} stubbed as no-op")
                 return Builtin("external_init", lambda *a, **k: None)
+            if name == "__call__" and isinstance(o.obj, Obj):
+                # torch.nn.Module.__call__ (assumed contract): dispatches to self.forward(*args); hooks are not modelled
+                I.path.notes.add("nn.Module.__call__ modelled as a call of forward (no hooks)")
+                return getattr_(I, o.obj, "forward")
             raise Unsupported(f"super().{name} not found in the repo")
         if m.kind == "property":
             return I.call_func(FuncVal(m, o.obj, cls_ctx=m.cls), [], {})
@@ -844,6 +852,16 @@ def _eval_annotation(I, mi, expr):
 
 
 def _eval_in_module(I, mi, expr):
+    cache = I.__dict__.setdefault("_class_attr_cache", {})
+    if isinstance(expr, (ast.Dict, ast.List, ast.Set, ast.Call)):
+        key = (mi.relpath, id(expr))
+        if key not in cache:
+            cache[key] = _eval_in_module_uncached(I, mi, expr)
+        return cache[key]
+    return _eval_in_module_uncached(I, mi, expr)
+
+
+def _eval_in_module_uncached(I, mi, expr):
     I.frames.append(Frame(None, {}, module=mi))
     try:
         return I.eval(expr)
